@@ -140,13 +140,20 @@ InHeaders(s, m) == \E f \in DOMAIN m.hdr : s \in m.hdr[f]
 
 Ideal == [date |-> "written", body |-> "body", seq |-> "seq"]
 
+FlagOps   == DOMAIN FlagOf
+UnFlagOps == DOMAIN UnFlagOf
+FieldOps  == DOMAIN FieldOf
+
 RECURSIVE Eval(_, _, _, _)
 Eval(k, v, p, c) ==
     LET m == v[p]
         o == k.op
-    IN  CASE o = "ALL"            -> TRUE
-          [] o \in DOMAIN FlagOf   -> FlagOf[o] \in m.flags
-          [] o \in DOMAIN UnFlagOf -> UnFlagOf[o] \notin m.flags
+    IN  CASE o = "NOT"            -> ~Eval(k.k, v, p, c)
+          [] o = "OR"             -> Eval(k.a, v, p, c) \/ Eval(k.b, v, p, c)
+          [] o = "AND"            -> \A i \in 1..Len(k.ks) : Eval(k.ks[i], v, p, c)
+          [] o = "ALL"            -> TRUE
+          [] o \in FlagOps        -> FlagOf[o] \in m.flags
+          [] o \in UnFlagOps      -> UnFlagOf[o] \notin m.flags
           [] o = "NEW"            -> "Recent" \in m.flags /\ "Seen" \notin m.flags
           [] o = "KEYWORD"        -> k.w \in m.flags
           [] o = "UNKEYWORD"      -> k.w \notin m.flags
@@ -158,7 +165,7 @@ Eval(k, v, p, c) ==
           [] o = "SENTBEFORE"     -> m.sent # NoSent /\ DayOf(m.sent, c) < k.d
           [] o = "SENTON"         -> m.sent # NoSent /\ DayOf(m.sent, c) = k.d
           [] o = "SENTSINCE"      -> m.sent # NoSent /\ DayOf(m.sent, c) >= k.d
-          [] o \in DOMAIN FieldOf  -> FieldOf[o] \in DOMAIN m.hdr /\ k.s \in m.hdr[FieldOf[o]]
+          [] o \in FieldOps       -> FieldOf[o] \in DOMAIN m.hdr /\ k.s \in m.hdr[FieldOf[o]]
           [] o = "HEADER"         -> /\ k.f \in DOMAIN m.hdr
                                      /\ IF k.s = "" THEN m.hdr[k.f] # {} ELSE k.s \in m.hdr[k.f]
           [] o = "BODY"           -> k.s \in m.body \/ (c.body = "text" /\ InHeaders(k.s, m))
@@ -166,9 +173,6 @@ Eval(k, v, p, c) ==
           [] o = "UID"            -> InSet(m.uid, k.set, MaxUid(v))
           [] o = "SEQ"            -> IF c.seq = "uid" THEN InSet(m.uid, k.set, MaxUid(v))
                                                      ELSE InSet(p, k.set, Len(v))
-          [] o = "NOT"            -> ~Eval(k.k, v, p, c)
-          [] o = "OR"             -> Eval(k.a, v, p, c) \/ Eval(k.b, v, p, c)
-          [] o = "AND"            -> \A i \in 1..Len(k.ks) : Eval(k.ks[i], v, p, c)
 
 Pos(v)       == 1..Len(v)
 Res(k, v, c) == {p \in Pos(v) : Eval(k, v, p, c)}
